@@ -269,6 +269,60 @@ def pending_sends_round(n_senders, cut_stream, cut):
     return obs
 
 
+def active_reconnect_round(cut_stream, cut, answered):
+    """An ACTIVE endpoint: it sends Select.req itself.  The peer answers it or not, sends `cut` bytes of a valid stream and closes;
+    the connection comes back at once.  The endpoint must select again: a new Select.req on the new connection, SELECTED once answered."""
+    import time
+    rig = protorig.HsmsRig(active=True, session_id=0)
+    obs = {"cut_at_byte": cut, "first_select_answered": answered}
+
+    def select_reqs():
+        data, out = b"".join(rig.conn.sent), []
+        while len(data) >= 4:
+            n = int.from_bytes(data[:4], "big") + 4
+            if len(data) >= n >= 14 and data[9] == 1:
+                out.append(data[:n])
+            data = data[n:]
+        return out
+
+    def wait_select_req(n, seconds=3.0):
+        deadline = time.monotonic() + seconds
+        while time.monotonic() < deadline and len(select_reqs()) < n:
+            time.sleep(0.005)
+        return len(select_reqs()) >= n
+
+    try:
+        rig.proto.enable()
+        rig.conn.connect()
+        obs["select_req_on_first_connection"] = wait_select_req(1)
+        if answered and select_reqs():
+            req = select_reqs()[0]
+            rig.conn.feed(req[:9] + bytes([2]) + req[10:])      # Select.rsp with the same system bytes, status 0
+            rig.settle(ignore_send_queue=True)
+        prefix = b"".join(cut_stream)[:cut]
+        if prefix:
+            rig.conn.feed(prefix)
+            rig.settle(ignore_send_queue=True)
+        common.with_deadline(rig.conn.peer_close, 20.0)
+        obs["not_connected_after_close"] = rig.proto.connection_state.current.value == 0
+        n0 = len(select_reqs())
+        rig.conn.connect()
+        obs["select_req_on_new_connection"] = wait_select_req(n0 + 1)
+        if obs["select_req_on_new_connection"]:
+            req = select_reqs()[-1]
+            rig.conn.feed(req[:9] + bytes([2]) + req[10:])
+            deadline = time.monotonic() + 3
+            while time.monotonic() < deadline and rig.proto.connection_state.current.value != 3:
+                time.sleep(0.005)
+        obs["selected_again"] = rig.proto.connection_state.current.value == 3
+    finally:
+        try:
+            rig.stop()
+        except Exception:  # noqa: BLE001
+            pass
+    return obs
+
+
 def evaluate(lits, prefix, shard=80):
     shards, maps = [], []
     idx = list(range(len(lits)))
@@ -345,6 +399,18 @@ def run(tier, replay=None):
                               "stream_hex": [f.hex() for f in pst], **obs}, True, tag="pending")
             break
     common.report_wedged(report, pwedged, proof)
+    # an ACTIVE endpoint loses the link (its Select.req answered or still open) and gets it back at once: it selects again
+    active_obs, awedged = [], []
+    for cut, answered in ([(0, False), (6, False), (9, True), (20, True)] if tier == "quick" else [(c, a) for c in (0, 1, 4, 6, 9, 14, 20, 30) for a in (False, True)]):
+        obs = common.guarded(lambda c=cut, a=answered: active_reconnect_round(pst, c, a), f"active endpoint, first Select.req answered={answered}, peer closes after {cut} bytes, reconnects at once", awedged, 60.0)
+        if obs is None:
+            continue
+        active_obs.append(obs)
+        if not all(obs.get(k2) for k2 in ("select_req_on_first_connection", "not_connected_after_close", "select_req_on_new_connection", "selected_again")):
+            report.violation({"kind": "counterexample", "what": "an active endpoint did not end the lost connection cleanly / did not select again on the connection that followed at once",
+                              "stream_hex": [f.hex() for f in pst], **obs}, True, tag="active")
+            break
+    common.report_wedged(report, awedged, proof)
     # the same over real sockets (TcpServerConnection on the loopback interface)
     tcp_obs = []
     st = streams(rnd)[0]
@@ -380,9 +446,11 @@ def run(tier, replay=None):
     cov["rule"] = ("three valid inbound streams (control and data messages, 35-70 bytes) cut at every byte offset (thorough) or at the first/last 16 offsets and a sample (quick), in "
                    "NOT SELECTED and SELECTED, ended by peer close or by disable(), each library call under a deadline; observed: messages dispatched from the prefix, state, receive buffer, "
                    "live receiver/dispatcher threads and send queue after the end, then a new connection with Select.req; plus the same over TcpServerConnection and a real loopback socket; "
+                   "plus an ACTIVE endpoint whose link is lost (own Select.req answered or still open, stream cut at several offsets) and restored at once: new Select.req, SELECTED again; "
                    "plus 1-6 application threads with blocks in the send queue whose writes fail while the peer closes (disconnect handling finishes, every sender returns, queue empty)")
     cov["correspondence"] = {k: v for k, v in stats.items() if k != "eval_errors"}
     cov["pending_sends_rounds"] = pending_obs
+    cov["active_reconnect_rounds"] = active_obs
     cov["tcp_rounds"] = {"count": len(tcp_obs), "max_disable_seconds": max([o.get("disable_seconds", 0) for o in tcp_obs] + [o.get("final_disable_seconds", 0) for o in tcp_obs] + [0])}
     cov["distribution"] = {"streams": dict(Counter(c[0] for c in cases)), "ended_by": dict(Counter(c[4] for c in cases)), "selected": dict(Counter(str(c[3]) for c in cases))}
     cov["samples"] = [f"stream {c[0]} cut {c[2]} selected={c[3]} {c[4]}" for c in cases[:: max(1, len(cases) // 6)][:6]]
